@@ -141,6 +141,14 @@ func genCfg(rnd *tr.Rand, focus string) *caseCfg {
 			c.maxConns = 3
 			c.inject = []inject{{name: "epctl-add", index: 1, kind: "enomem", cid: -1}}
 		}
+		if strings.HasPrefix(c.scenario, "data-with-fin") {
+			// data-with-fin-<unix|tcp>-<lt|et>: the peer's last bytes and its close are reported in ONE event
+			c.maxConns = 2
+			c.et = strings.HasSuffix(c.scenario, "-et")
+			if strings.Contains(c.scenario, "-unix-") {
+				c.proto = "unix"
+			}
+		}
 		return c
 	}
 	if focus == "client" {
@@ -564,6 +572,26 @@ func runCase(w *tr.Writer, seed uint64, idx int, focus string) {
 				quiet()
 			}
 		}
+		if strings.HasPrefix(cfg.scenario, "data-with-fin") && len(peers) == 2 {
+			// the loop is parked inside connection 0's second OnTraffic while peer 1 writes and closes:
+			// the next epoll_wait reports peer 1's data together with its hang-up
+			seq := rec.seq()
+			n, _ := peers[0].conn.Write([]byte("park"))
+			peers[0].sent = append(peers[0].sent, []byte("park")[:n]...)
+			select {
+			case <-h.inTraffic:
+			case <-time.After(time.Second):
+			}
+			data := rnd.Bytes(5000)
+			n, _ = peers[1].conn.Write(data)
+			peers[1].sent = append(peers[1].sent, data[:n]...)
+			peers[1].conn.Close()
+			peers[1].closed = true
+			time.Sleep(10 * time.Millisecond)
+			close(h.release)
+			woken(seq, 500*time.Millisecond)
+			quiet()
+		}
 		if cfg.scenario == "async-flood" && len(peers) > 0 {
 			// 1500 asynchronous writes are issued while the loop is busy inside OnTraffic
 			if ci := h.byCid(peers[0].cid); ci != nil && ci.c != nil {
@@ -700,7 +728,24 @@ func runCase(w *tr.Writer, seed uint64, idx int, focus string) {
 			p.conn.SetWriteDeadline(time.Now().Add(2 * time.Second))
 			n, _ := p.conn.Write(data)
 			p.sent = append(p.sent, data[:n]...)
-			w.Hist("peer-send")
+			if k >= 41 && n == len(data) {
+				// the last bytes and the close (or half-close) arrive back to back: often one event
+				if k == 44 {
+					switch c := p.conn.(type) {
+					case *net.TCPConn:
+						c.CloseWrite()
+					case *net.UnixConn:
+						c.CloseWrite()
+					}
+					p.wclosed = true
+				} else {
+					p.conn.Close()
+					p.closed = true
+				}
+				w.Hist("peer-send-close")
+			} else {
+				w.Hist("peer-send")
+			}
 			woken(seq, expect(p))
 		case k < 60:
 			p := lp[rnd.Intn(len(lp))]
